@@ -34,7 +34,7 @@ structure Hist where
   truncDirty  : Bool := false   -- a truncate below the size happened while the buffer held dirty lists
   truncChunks : Bool := false   -- a truncate below the size happened while the entry had chunks
   readSeen    : Bool := false   -- FileHandle.Read has been called on this handle (it caches the chunk view and the reader)
-  savedAfterRead : Bool := false -- the entry's chunk list or its FileSize attribute (truncate) changed after such a Read
+  savedAfterRead : Bool := false -- the entry's chunk list or its FileSize attribute (truncate, or a write that extends the file) changed after such a Read
 deriving Repr
 
 def truncClass (h : Hist) (pfx : String) : String :=
